@@ -207,6 +207,34 @@ def _bcface(res):
         _expect(res, "C16:bcface:%s" % nm, "BoundaryFace(%s)" % nm, _exc(lambda: BF(*args)), None)
     for nm, args in bad.items():
         _expect(res, "C16:bcface:%s" % nm, "BoundaryFace(%s)" % nm, _exc(lambda: BF(*args)), TypeError)
+    # every kind of non-array object in every single position (the other two proper arrays) and in all three
+    arr = np.array([1.0, 2.0])
+    nonarrays = {"float": 1.0, "int": 1, "bool": True, "None": None, "list": [1.0], "tuple": (1.0,), "str": "a",
+                 "complex": 1j, "np.float64": np.float64(1.0), "np.float32": np.float32(1.0), "np.int64": np.int64(1),
+                 "np.bool_": np.bool_(True), "element arr[0]": arr[0], "np.max(arr)": np.max(arr),
+                 "memoryview": memoryview(arr), "range": range(2), "dict": {}, "set": {1.0}, "generator": (x for x in ()),
+                 "np.matrix": np.matrix([1.0]), "cellvariable-like object": object()}
+    for nm, obj in nonarrays.items():
+        for pos in range(3):
+            args = [a.copy(), a.copy(), a.copy()]
+            args[pos] = obj
+            _expect(res, "C16:bcface:nonarray:%s" % nm, "BoundaryFace with %s as coefficient %s" % (nm, "abc"[pos]),
+                    _exc(lambda: BF(*args)), TypeError)
+        _expect(res, "C16:bcface:nonarray:%s" % nm, "BoundaryFace with %s as all three coefficients" % nm,
+                _exc(lambda: BF(obj, obj, obj)), TypeError)
+    # and a face built from a non-array must never end up in a solvable problem
+    for cls in U.CLASSES:
+        d = U.dim(cls)
+        mesh = U.make_mesh(U.spec(cls, (2, 1, 3)[:d], ("I",) * d, 1))
+        for nm in ("np.float64", "element arr[0]", "float"):
+            def attempt():
+                bc = pf.BoundaryConditions(mesh)
+                o = bc.right
+                bc.right = BF(np.array(o._a), nonarrays[nm], np.array(o._c))
+                v = pf.CellVariable(mesh, 1.0, bc)
+                pf.solvePDE(v, [pf.linearSourceTerm(pf.CellVariable(mesh, 1.0)), pf.constantSourceTerm(pf.CellVariable(mesh, 1.0))])
+            _expect(res, "C16:bcface:nonarray_solved:%s" % nm, "a problem on %s whose right face was given %s as coefficient b" % (cls, nm),
+                    _exc(attempt), TypeError)
 
 
 def _terms(cls, res):
